@@ -551,6 +551,10 @@ def replay(f, want):
                 if not any(contradicts(k, pi) for k in ret):
                     bad.append(f"elimination order {''.join(pi)} is not excluded by {ret}")
         if "C15" in want:
+            if "C04" not in want:      # the least-difficult set must itself be sufficient
+                for pi in orders:
+                    if not any(contradicts(k, pi) for k in ret):
+                        bad.append(f"elimination order {''.join(pi)} is not excluded by {ret}")
             D = max(float(a.difficulty) for a in res)
             diff = lambda a: float(fn(tally(a)[0], tally(a)[1], B - sum(tally(a)), B))
             easier = [a for a in true_set if diff(a) < D - 1e-12]
